@@ -696,11 +696,55 @@ class CallMixin:
         return Core.choose(self, conds, labels)
 
     # ---------------------------------------------------------------- top level
+    def validate_anchors(self, fi, contract):
+        """The contract is tied to the function text by loop ordinals, names of loop locals and ghost-code
+        anchors.  If the text no longer has them (a loop added or removed, a local renamed, an anchored statement
+        rewritten), the contract does not describe this function any more: that is 'out of reach' (undecided),
+        never a refutation."""
+        from .stmt import loop_ordinals, assigned_names, anchor_txt
+        loops = {}
+
+        def walk(stmts):
+            for st in stmts:
+                if isinstance(st, (ast.FunctionDef, ast.ClassDef)):
+                    continue
+                if isinstance(st, (ast.For, ast.While)):
+                    loops[len(loops) + 1] = st
+                for fld in ('body', 'orelse', 'finalbody'):
+                    sub = getattr(st, fld, None)
+                    if isinstance(sub, list):
+                        walk(sub)
+                for h in getattr(st, 'handlers', []) or []:
+                    walk(h.body)
+        walk(fi.node.body)
+        for ordn, spec in contract.loops.items():
+            if not isinstance(ordn, int):
+                continue
+            node = loops.get(ordn)
+            if node is None:
+                raise EngineLimit(f'contract names loop #{ordn}, the function has {len(loops)} loops')
+            names = set(assigned_names(node.body))
+            if isinstance(node, ast.For):
+                names |= set(assigned_names([ast.Assign(targets=[node.target], value=ast.Constant(value=None))]))
+            for nm in spec.types:
+                if '.' not in nm and nm not in names and not nm.startswith('g_') and nm not in contract.ghosts:
+                    raise EngineLimit(f'loop #{ordn}: the contract declares local {nm!r}, which the loop does not assign '
+                                      f'(assigned: {sorted(names)})')
+        if contract.ghost_code:
+            have = set()
+            for n in ast.walk(fi.node):
+                if isinstance(n, ast.stmt):
+                    have.add(anchor_txt(n))
+            for key in contract.ghost_code:
+                if ' '.join(key.split()) not in have:
+                    raise EngineLimit(f'ghost-code anchor not found in the function text: `{key}`')
+
     def run_contract(self, contract, max_paths=None):
         """Enumerate all paths of the function under its contract.
         Returns list of PathResult."""
         fi = self.repo.find_function(contract.key)
         self.top_contract = contract
+        self.validate_anchors(fi, contract)
         self.worklist = [[]]
         results = []
         max_paths = max_paths or contract.max_paths
